@@ -329,7 +329,11 @@ func (tx *Transaction) Collection(idx variables.RuleVariable) collection.Collect
 func (tx *Transaction) Interrupt(interruption *types.Interruption) {
 	switch tx.RuleEngine {
 	case types.RuleEngineOn:
-		tx.interruption = interruption
+		// The first interruption is final: rules of the logging phase still run after
+		// an interruption and must not replace it with their own disruptive action.
+		if tx.interruption == nil {
+			tx.interruption = interruption
+		}
 	case types.RuleEngineDetectionOnly:
 		// In DetectionOnly mode, the interruption is not actually triggered, which means that
 		// further rules will continue to be evaluated and more actions can be executed.
